@@ -32,16 +32,17 @@ theorem lineToks_value_ne (n : Nat) (f : FieldD) (h : SimpleValue f) (s : Nat) :
   simp
 
 theorem count_values : ∀ (es : List Item), SimpleValues es → ∀ (n : Nat) (first : Bool) (le0 lt L : Nat) (g : Bool),
-    es.length ≤ (toksOf (elemsCmds n es first le0 lt) g L).length ∧ needAll es = 0
+    es.length ≤ (kT n es first le0 lt g L).length ∧ needAll es = 0
   | [], _, _, _, _, _, _, _ => by simp [needAll]
   | .field f :: r, h, n, first, le0, lt, L, g => by
     simp only [SimpleValues] at h
-    rw [toksOf_elems_cons n (.field f) r first le0 lt g L (Or.inr (Or.inl h.1))]
-    have ih := count_values r h.2 n false (Item.field f).loc.endLine (Item.field f).typeOrder
-      (rdItem (.field f) (startLine (g || gapBefore first le0 lt (.field f)) L)).2 (Item.field f).gapEnder
-    have h1 := lineToks_value_ne n f h.1 (startLine (g || gapBefore first le0 lt (.field f)) L)
+    rw [kT_cons]
+    generalize kidS (.field f) first le0 lt L g = st
+    have ih := count_values r h.2.2 n false (Item.field f).loc.endLine (Item.field f).typeOrder
+      (rdItem (.field f) st).2 (Item.field f).gapEnder
+    have h1 := lineToks_value_ne n f h.1 st
     have hpe : f.popts.isEmpty = true := by simp [Leaf.popts (Or.inr (Or.inl h.1))]
-    simp only [itemToks, hpe, if_true, leafLine, h.1.1, List.length_append, List.length_cons, needAll, need1] at ih h1 ⊢
+    simp only [itemToks, hpe, if_true, leafLine, h.1.1, List.length_append, List.length_cons, needAll, need1, hd_length] at ih h1 ⊢
     omega
   | .rpc _ _ _ _ _ _ :: _, h, _, _, _, _, _, _ => by simp [SimpleValues] at h
   | .block _ _ _ _ _ _ _ :: _, h, _, _, _, _, _, _ => by simp [SimpleValues] at h
@@ -61,15 +62,16 @@ theorem memberToks_ne (n : Nat) (f : FieldD) (h : SimpleField f ∨ OptField f) 
     omega
 
 theorem count_members : ∀ (es : List Item), SimpleMembers es → ∀ (n : Nat) (first : Bool) (le0 lt L : Nat) (g : Bool),
-    es.length ≤ (toksOf (elemsCmds n es first le0 lt) g L).length ∧ needAll es = 0
+    es.length ≤ (kT n es first le0 lt g L).length ∧ needAll es = 0
   | [], _, _, _, _, _, _, _ => by simp [needAll]
   | .field f :: r, h, n, first, le0, lt, L, g => by
     simp only [SimpleMembers] at h
-    rw [toksOf_elems_cons n (.field f) r first le0 lt g L (member_plain h.1.1)]
-    have ih := count_members r h.2 n false (Item.field f).loc.endLine (Item.field f).typeOrder
-      (rdItem (.field f) (startLine (g || gapBefore first le0 lt (.field f)) L)).2 (Item.field f).gapEnder
-    have h1 := memberToks_ne n f h.1.1 (startLine (g || gapBefore first le0 lt (.field f)) L)
-    simp only [List.length_append, List.length_cons, needAll, need1] at ih h1 ⊢
+    rw [kT_cons]
+    generalize kidS (.field f) first le0 lt L g = st
+    have ih := count_members r h.2.2 n false (Item.field f).loc.endLine (Item.field f).typeOrder
+      (rdItem (.field f) st).2 (Item.field f).gapEnder
+    have h1 := memberToks_ne n f h.1.1 st
+    simp only [List.length_append, List.length_cons, needAll, need1, hd_length] at ih h1 ⊢
     omega
   | .rpc _ _ _ _ _ _ :: _, h, _, _, _, _, _, _ => by simp [SimpleMembers] at h
   | .block _ _ _ _ _ _ _ :: _, h, _, _, _, _, _, _ => by simp [SimpleMembers] at h
@@ -137,14 +139,15 @@ theorem count_item : ∀ (e : Item), SimpleItem e → ∀ (n s : Nat), 1 + need1
       · have := count_members kids hk (n + 1) true 0 0 (s + 1 + optSpan opts) (!opts.isEmpty)
         omega
 theorem count_kids : ∀ (es : List Item), SimpleKids es → ∀ (n : Nat) (first : Bool) (le0 lt L : Nat) (g : Bool),
-    es.length + needAll es ≤ (toksOf (elemsCmds n es first le0 lt) g L).length
+    es.length + needAll es ≤ (kT n es first le0 lt g L).length
   | [], _, _, _, _, _, _, _ => by simp [needAll]
   | e :: r, h, n, first, le0, lt, L, g => by
     simp only [SimpleKids] at h
-    rw [toksOf_elems_cons n e r first le0 lt g L (SimpleItem.plain e h.1)]
-    have h1 := count_item e h.1 n (startLine (g || gapBefore first le0 lt e) L)
-    have h2 := count_kids r h.2 n false e.loc.endLine e.typeOrder (rdItem e (startLine (g || gapBefore first le0 lt e) L)).2 e.gapEnder
-    simp only [List.length_append, List.length_cons, needAll]
+    rw [kT_cons]
+    generalize kidS e first le0 lt L g = st
+    have h1 := count_item e h.1 n st
+    have h2 := count_kids r h.2.2 n false e.loc.endLine e.typeOrder (rdItem e st).2 e.gapEnder
+    simp only [List.length_append, List.length_cons, needAll, hd_length]
     omega
 end
 
@@ -158,28 +161,28 @@ theorem count_rpcOpts (os : List SOpt) (ho : RpcOpts os) : (rpcChunks os).length
   simp [Grammar.optionStmt] at hr
 
 theorem count_rpcs : ∀ (es : List Item), SimpleRpcs es → ∀ (n : Nat) (first : Bool) (le0 lt L : Nat) (g : Bool),
-    es.length + needAll es ≤ (toksOf (elemsCmds n es first le0 lt) g L).length
+    es.length + needAll es ≤ (kT n es first le0 lt g L).length
   | [], _, _, _, _, _, _, _ => by simp [needAll]
   | .rpc l i name inT outT opts :: r, h, n, first, le0, lt, L, g => by
-    obtain ⟨⟨hl, ho, hname, ⟨sI, aI, fI, rI, hfI, hrI, hin, _⟩, ⟨sO, aO, fO, rO, hfO, hrO, hout, _⟩⟩, hr⟩ := h
+    obtain ⟨⟨hl, ho, hname, ⟨sI, aI, fI, rI, hfI, hrI, hin, _⟩, ⟨sO, aO, fO, rO, hfO, hrO, hout, _⟩⟩, _, hr⟩ := h
     subst hin hout
     have hco := count_rpcOpts opts ho
-    rw [toksOf_elems_cons n (Item.rpc l i name (rpcTyStr sI aI fI rI) (rpcTyStr sO aO fO rO) opts) r first le0 lt g L ⟨hl, ho⟩]
+    rw [kT_cons]
+    generalize kidS (Item.rpc l i name (rpcTyStr sI aI fI rI) (rpcTyStr sO aO fO rO) opts) first le0 lt L g = st
     have ih := count_rpcs r hr n false (Item.rpc l i name (rpcTyStr sI aI fI rI) (rpcTyStr sO aO fO rO) opts).loc.endLine (Item.rpc l i name (rpcTyStr sI aI fI rI) (rpcTyStr sO aO fO rO) opts).typeOrder
-      (rdItem (Item.rpc l i name (rpcTyStr sI aI fI rI) (rpcTyStr sO aO fO rO) opts)
-        (startLine (g || gapBefore first le0 lt (Item.rpc l i name (rpcTyStr sI aI fI rI) (rpcTyStr sO aO fO rO) opts)) L)).2
+      (rdItem (Item.rpc l i name (rpcTyStr sI aI fI rI) (rpcTyStr sO aO fO rO) opts) st).2
       (Item.rpc l i name (rpcTyStr sI aI fI rI) (rpcTyStr sO aO fO rO) opts).gapEnder
     simp only [itemToks]
     split
     · simp only [lineToks_rpc n name sI aI fI rI sO aO fO rO _ hname hfI hrI hfO hrO, rpcToks,
-        List.length_append, List.length_cons, needAll, need1] at ih ⊢
+        List.length_append, List.length_cons, needAll, need1, hd_length] at ih ⊢
       rename_i he
       have : opts = [] := by simpa using he
       subst this
       simp only [rpcChunks, rpcToks0_nil, splitOpt, List.length_nil] at ih ⊢
       omega
     · simp only [lineToks_rpcOpen n name sI aI fI rI sO aO fO rO _ hname hfI hrI hfO hrO, rpcOpenToks,
-        List.length_append, List.length_cons, needAll, need1, sh_length] at ih ⊢
+        List.length_append, List.length_cons, needAll, need1, sh_length, hd_length] at ih ⊢
       omega
   | .field _ :: _, h, _, _, _, _, _, _ => h.1.elim
   | .block _ _ _ _ _ _ _ :: _, h, _, _, _, _, _, _ => h.1.elim
@@ -204,17 +207,18 @@ theorem count_service : ∀ (e : Item), SimpleService e → ∀ (n s : Nat), 1 +
   | .rpc _ _ _ _ _ _, h, _, _ => h.elim
 
 theorem count_tops : ∀ (es : List Item), SimpleTops es → ∀ (n : Nat) (first : Bool) (le0 lt L : Nat) (g : Bool),
-    es.length + needAll es ≤ (toksOf (elemsCmds n es first le0 lt) g L).length
+    es.length + needAll es ≤ (kT n es first le0 lt g L).length
   | [], _, _, _, _, _, _, _ => by simp [needAll]
   | e :: r, h, n, first, le0, lt, L, g => by
     simp only [SimpleTops] at h
-    rw [toksOf_elems_cons n e r first le0 lt g L (SimpleTop.plain e h.1)]
-    have h1 : 1 + need1 e ≤ (itemToks n e (startLine (g || gapBefore first le0 lt e) L)).length := by
+    rw [kT_cons]
+    generalize kidS e first le0 lt L g = st
+    have h1 : 1 + need1 e ≤ (itemToks n e st).length := by
       rcases h.1 with hs | hs
       · exact count_item e hs.1 n _
       · exact count_service e hs n _
-    have h2 := count_tops r h.2 n false e.loc.endLine e.typeOrder (rdItem e (startLine (g || gapBefore first le0 lt e) L)).2 e.gapEnder
-    simp only [List.length_append, List.length_cons, needAll]
+    have h2 := count_tops r h.2.2 n false e.loc.endLine e.typeOrder (rdItem e st).2 e.gapEnder
+    simp only [List.length_append, List.length_cons, needAll, hd_length]
     omega
 
 
@@ -397,10 +401,10 @@ theorem top_imports : ∀ (I : List (String × String)) (L F : Nat) (a : Acc) (r
 
 
 mutual
-theorem plain_quiet : ∀ (e : Item), Plain e → e.quiet
+theorem plain_quiet : ∀ (e : Item), Plain e → e.quietL
   | .field f, h => by
     simp only [Plain] at h
-    simp only [Item.quiet, FieldD.quiet]
+    simp only [Item.quietL, FieldD.quietL]
     rcases h with h | h | h | h
     · exact ⟨h.2.1, by rw [h.2.2.1]; simp⟩
     · exact ⟨h.2.1, by rw [h.2.2.1]; simp⟩
@@ -408,17 +412,17 @@ theorem plain_quiet : ∀ (e : Item), Plain e → e.quiet
     · exact ⟨h.loc, h.unl⟩
   | .rpc _ _ _ _ _ _, h => by
     simp only [Plain] at h
-    simp only [Item.quiet]
+    simp only [Item.quietL]
     exact ⟨h.1, h.2.unl⟩
   | .block _ _ l _ _ os ks, h => by
     simp only [Plain] at h
-    simp only [Item.quiet]
+    simp only [Item.quietL]
     exact ⟨h.1, h.2.1.unl, plainList_quiet ks h.2.2⟩
-theorem plainList_quiet : ∀ (es : List Item), PlainList es → quietList es
+theorem plainList_quiet : ∀ (es : List Item), PlainList es → quietListL es
   | [], _ => trivial
   | e :: r, h => by
     simp only [PlainList] at h
-    exact ⟨plain_quiet e h.1, plainList_quiet r h.2⟩
+    exact ⟨plain_quiet e h.1, plainList_quiet r h.2.2⟩
 end
 
 /-! ### the reading satisfies `relaidFile` -/
@@ -445,7 +449,7 @@ theorem sortImports_idem (l : List (String × String)) (hd : l.Pairwise (fun a b
 theorem itemsStart_pos (t : FileD) : 0 < itemsStart t := by
   unfold itemsStart; split <;> omega
 
-theorem relaid_rdFile (gen : String) (t : FileD) (h : SimpleFile gen t) : relaidFile t (rdFile t) := by
+theorem relaid_rdFile (gen : String) (t : FileD) (h : SimpleFile gen t) : relaidFileL t (rdFile t) := by
   refine ⟨rfl, rfl, sortImports_idem t.imports h.distinct, ⟨rfl, rfl, rfl⟩, ?_, ?_, ?_, ?_⟩
   · rw [h.opts]; exact optsOk_nil
   · rw [h.exts]; rfl
@@ -453,7 +457,7 @@ theorem relaid_rdFile (gen : String) (t : FileD) (h : SimpleFile gen t) : relaid
   · exact relaid_rdKids t.items true 0 0 (itemsStart t) true 0 0 false (SimpleTops.plain _ h.items) (itemsStart_pos t)
       (by intro hf; cases hf)
 
-theorem simple_quiet (gen : String) (t : FileD) (h : SimpleFile gen t) : t.quiet := by
+theorem simple_quiet (gen : String) (t : FileD) (h : SimpleFile gen t) : t.quietL := by
   refine ⟨h.loc, by rw [h.opts]; simp, by rw [h.exts]; simp, ?_⟩
   exact plainList_quiet _ (SimpleTops.plain _ h.items)
 
